@@ -88,7 +88,7 @@ func c13(p *Pkg, _ *Pkg, payload json.RawMessage, res *Result) {
 					if entered != 0 {
 						bad("middleware-entered", in, fmt.Sprintf("%d middlewares entered", entered), "the spec route bypasses middlewares")
 					}
-				} else if rec.Status == 200 && string(rec.Body) == string(raw) && len(raw) > 0 || (ran == 0 && notFound != 1) {
+				} else if rec.Status == 200 && string(rec.Body) == string(raw) && len(raw) > 0 && ran == 0 || (ran == 0 && notFound != 1 && entered == 0) {
 					bad("answers-without-handler", in, fmt.Sprintf("status %d notfound=%d handlers=%d", rec.Status, notFound, ran), "treated like any other path (not found)")
 				}
 			}
